@@ -178,12 +178,12 @@ def run_instance(cid, inst_index, tier, seed=0, repo_src=None, native_trials=0, 
     for ctx in ctxs:
         bounded_clauses |= ctx.memo.get("bounded_clauses", set())
     res["bounded_clauses"] = sorted(f"{cid}#{b}[{label}]" for b in bounded_clauses)
+    if nobl == 0 and not bounded_clauses and not res["checker_errors"]:
+        res["checker_errors"].append({"where": f"{cid}[{label}]", "trace": "no obligations generated"})
     if bounded_clauses and not native_trials:
         native_trials = 12  # bounded stand-in clauses are always exercised
     res["trusted"] = sorted(trusted)
     res["covered"] = sorted(f"{m}:{l}" for m, l in world.covered)
-    if nobl == 0 and not res["checker_errors"]:
-        res["checker_errors"].append({"where": f"{cid}[{label}]", "trace": "no obligations generated"})
 
     native = NativeBackend(repo_src)
     if failed:
@@ -193,7 +193,14 @@ def run_instance(cid, inst_index, tier, seed=0, repo_src=None, native_trials=0, 
         bad = _differential(world, con, inst, k0, native, native_trials, seed)
         res["native_trials"] = native_trials
         for b in bad:
-            res["checker_errors"].append({"where": f"{cid}[{label}]", "trace": "proof succeeded but the real code violates the contract natively: " + json.dumps(b, default=str)[:2000]})
+            if bounded_clauses and b.get("failures"):
+                # a clause that is only checked by the bounded stand-in failed on the real code
+                nm = b["failures"][0].split(":")[0]
+                oid = f"{cid}#{nm}[{label}]"
+                path = write_replay(prop, con, inst, label, oid, {"obligation": nm, "sizes": b.get("sizes"), "inputs": b["inputs"], "failures": b["failures"], "solver_model": "", "how": "bounded stand-in: sampled small inputs on the real code"}, reproduced=True)
+                res["violations"].append({"obligation": oid, "name": nm, "status": "bounded-failed", "backend": "native", "reason": "", "replay": path, "reproduced": True, "detail": b["failures"]})
+            else:
+                res["checker_errors"].append({"where": f"{cid}[{label}]", "trace": "proof succeeded but the real code violates the contract natively: " + json.dumps(b, default=str)[:2000]})
     res["wall_s"] = time.time() - t0
     if os.environ.get("PYVC_PROFILE") and res["wall_s"] > 3:
         print(f"PROFILE {cid}[{label}] wall={res['wall_s']:.1f} solver={res['solver_s']:.1f} obligations={len(res['obligations'])} slowest={sorted(((o['secs'], o['id'].split('#')[1][:40]) for o in res['obligations']), reverse=True)[:3]}", flush=True)
@@ -211,7 +218,7 @@ def _differential(world, con, inst, k0, native, trials, seed):
             continue
         done += 1
         if st == "fail":
-            bad.append({"inputs": k.inputs, "failures": k.failures})
+            bad.append({"inputs": k.inputs, "failures": k.failures, "sizes": sizes})
             break
         if st == "error":
             bad.append({"inputs": k.inputs, "error": getattr(k, "error", "")})
